@@ -5,3 +5,6 @@
 ; call: a function either was handed the authority by its caller (`requires auth`) or it has to work without
 ; (no such clause: its obligations must hold for auth = false).
 (declare-fun auth () Bool)
+
+; x-c17: enumof(e) = the tuple whose attributes the rel.AttrEnumerator e enumerates
+(declare-fun enumof (Val) Val)
